@@ -158,6 +158,7 @@ class SimWorker:
         self.received: list[Any] = []
         self.stolen_replies: list[list[int]] = []
         self.death_hold: dict[str, Any] | None = None
+        self.sys_steps: list[str] = []      # the steps of the Lean system model this worker has just taken (drained by Sim.do)
 
     # ---- helpers
     def emit(self, name: str, **kw: Any) -> None:
@@ -167,6 +168,7 @@ class SimWorker:
         if not self.alive:
             return
         self.alive = False
+        self.sys_steps.append(f"crash {self.id[2:]} {'1' if self.sim.cfg.oserror_window else '0'}")
         self.death_hold = {"cur": self.cur if self.pc in ("run0", "run1", "run2") else None,
                            "next": self.next if self.pc in ("wait1", "run0", "run1", "run2") and self.next is not SHUT else None,
                            "queue": [x for x in self.queue if x is not SHUT], "pc": self.pc, "why": why,
@@ -231,6 +233,7 @@ class SimWorker:
                 return self.die("startup")
             self.emit("workerready", workerinfo={"version": "x", "executable": "py"})
             self.pc = "collect"
+            self.sys_steps.append(f"main {self.id[2:]}")
         elif pc == "collect":
             if point == "collect":
                 return self.die("collection")
@@ -253,17 +256,21 @@ class SimWorker:
             else:
                 self.pc = "loop0"
                 self.cb_set = True          # pytest_runtestloop registers handle_command
+            self.sys_steps.append(f"main {self.id[2:]} collect {'1' if point == 'garbage' and not errs else '0'}"
+                                  + "".join(f" {esc(t)} 1" for t in errs))
             if point == "collected":
                 return self.die("after collection")
         elif pc == "loop0":
             x = self.queue.popleft()
             self.next = x
             self.pc = "finish" if x is SHUT else "wait1"
+            self.sys_steps.append(f"main {self.id[2:]}")
         elif pc == "wait1":
             self.cur = self.next
             self.next = self.queue.popleft()
             self.ran.append((self.cur, None if self.next is SHUT else self.next))
             self.pc = "run0"
+            self.sys_steps.append(f"main {self.id[2:]}")
         elif pc == "run0":
             attempt = sim.attempts.get(self.cur, 0)
             sim.attempts[self.cur] = attempt + 1
@@ -271,7 +278,9 @@ class SimWorker:
             b = sim.behav(self.cur, attempt)
             nodeid = self.ids[self.cur] if self.cur < len(self.ids) else f"?{self.cur}"
             self.emit("logstart", nodeid=nodeid, location=("f.py", 1, nodeid))
+            self.sys_steps.append(f"main {self.id[2:]}")
             if b.kind == "crash":
+                self.pc = "run1"
                 return self.die("inside the test")
             self.pc = "run1"
         elif pc == "run1":
@@ -300,12 +309,16 @@ class SimWorker:
                 self.exitstatus = 2       # pytest.exit() / KeyboardInterrupt inside the test
             self.emit("logfinish", nodeid=nodeid, location=("f.py", 1, nodeid))
             self.pc = "run2"
+            opt = lambda v: esc(str(v)) if v else "-"  # noqa: E731
+            fs = "".join("1" if o == "failed" else "0" for _, o, _ in phases(b.kind)) or "-"
+            self.sys_steps.append(f"main {self.id[2:]} reports {fs} {opt(self.shouldfail)} {opt(self.shouldstop)} {'1' if self.exitstatus == 2 else '0'}")
         elif pc == "run2":
+            b = sim.behav(self.cur, sim.attempts.get(self.cur, 1) - 1)
+            self.sys_steps.append(f"main {self.id[2:]} complete {'1' if b.slow else '0'}")
             if self.exitstatus == 2:
                 # the exception left run_one_test before the completion event
                 self.pc = "finish"
                 return
-            b = sim.behav(self.cur, sim.attempts.get(self.cur, 1) - 1)
             self.emit("runtest_protocol_complete", item_index=self.cur, duration=0.25 if b.slow else 0.0)
             self.completed.append(self.cur)
             self.cur = None
@@ -319,6 +332,7 @@ class SimWorker:
             self.emit("workerfinished", workeroutput={"exitstatus": self.exitstatus, "shouldfail": self.shouldfail,
                                                        "shouldstop": self.shouldstop})
             self.pc = "done"
+            self.sys_steps.append(f"main {self.id[2:]}")
             self.alive_before_end = True
             self.w2c.append("END")
             self.end_queued = True
@@ -471,6 +485,9 @@ class Sim:
         self.dsession: Any = None
         self.ctl_trace: list[dict[str, Any]] = []         # per loop_once: event, commands, publications (for the Lean tie)
         self._flag_lines: list[str] = []
+        self.sys_lines: list[str] = []      # input of the Lean `sys` driver: every step of the simulation
+        self.sys_obs: list[str] = []
+        self._sys_pre: list[str] = []
         # relative speed of the workers' main threads (imbalance makes work stealing and top-ups happen)
         self.speed: dict[int, float] = {}
         if rng.random() < 0.6:
@@ -505,6 +522,8 @@ class Sim:
         key = str(spec)
         self.spec_keys.setdefault(key, len(self.spec_keys))
         self._flag_lines.append(f"spec {gw.id[2:]} {self.spec_keys[key]}")
+        self._sys_pre.append(f"spec {gw.id[2:]} {self.spec_keys[key]}")
+        self._sys_pre.append(f"ids {gw.id[2:]} {show_str_list(w.ids)}")
         if self._open is not None:
             self.obs_pub.append(f"spawn:{gw.id[2:]}")
         return gw
@@ -566,15 +585,37 @@ class Sim:
             assert w is not None
             self.do(kind, w)
 
+    def worker_obs(self, w: SimWorker) -> str:
+        shq = lambda x: "S" if x is SHUT else str(x)  # noqa: E731
+        running = w.pc in ("run0", "run1", "run2")
+        cur = str(w.cur) if running and w.cur is not None else "-"
+        nx = shq(w.next) if (running or w.pc == "wait1") and w.next is not None else "-"
+        q = ",".join(shq(x) for x in w.queue) or "-"
+        return (f"w pc={w.pc} cur={cur} next={nx} q={q} in={len(w.c2w)} out={len(w.w2c)} alive={'1' if w.alive else '0'} "
+                f"cq={len(self.dsession.queue.items)}")
+
+    def sys_record(self, lines: list[str], w: SimWorker) -> None:
+        for k, l in enumerate(lines):
+            self.sys_lines += self._sys_pre
+            self.sys_obs += ["ok"] * len(self._sys_pre)
+            self._sys_pre = []
+            self.sys_lines.append(l)
+            # intermediate steps of one simulation step are not observed individually
+            self.sys_obs.append(self.worker_obs(w) if k == len(lines) - 1 else "*")
+
     def do(self, kind: str, w: SimWorker) -> None:
         self.trace.append(f"{kind} {w.id}")
+        w.sys_steps = []
         if kind == "main":
             w.main()
+            self.sys_record(w.sys_steps, w)
         elif kind == "deliver":
             w.deliver()
+            self.sys_record([f"deliver {w.id[2:]}"], w)
         elif kind == "crash":
             self.crashes += 1
             w.die("injected")
+            self.sys_record(w.sys_steps, w)
         elif kind == "recv":
             msg = w.w2c.popleft()
             node = w.node
@@ -591,6 +632,9 @@ class Sim:
                 self._flag_lines.append(f"flag-down {w.id[2:]}")
             if node._shutdown_sent and not sent_before:
                 self._flag_lines.append(f"flag-sent {w.id[2:]}")
+            if msg == "END" and self.cfg.oserror_window:
+                self._flag_lines.append(f"flag-unbroken {w.id[2:]}")
+            self.sys_record([f"recv {w.id[2:]}"], w)
         else:
             raise ValueError(kind)
 
@@ -639,6 +683,9 @@ class Sim:
             # `_active_nodes` was tested)
             self.ctl_lines.append("other")
             self.ctl_obs.append("RuntimeError")
+            self.sys_lines += self._sys_pre + ["ctl 0"]
+            self.sys_obs += ["ok"] * len(self._sys_pre) + ["RuntimeError"]
+            self._sys_pre = []
             return
         if o is None:
             if not self.ctl_lines and self.dsession is not None and self.dsession.sched is not None:
@@ -646,6 +693,9 @@ class Sim:
                 mr = ds._max_worker_restart
                 self.ctl_lines.append(f"init {self.cfg.mode} {len(ds.nodemanager.specs)} {self.cfg.msc} {ds.maxfail or 0} {mr}")
                 self.ctl_obs.append(self.render_obs(0, 0))
+                self.sys_lines += self._sys_pre + [self.ctl_lines[-1]]
+                self.sys_obs += ["ok"] * len(self._sys_pre) + [self.ctl_obs[-1]]
+                self._sys_pre = []
                 self.ctl_lines += self._flag_lines
                 self.ctl_obs += ["ok"] * len(self._flag_lines)
                 self._flag_lines = []
@@ -664,6 +714,10 @@ class Sim:
             self.ctl_obs.append(type(exc).__name__)
         else:
             self.ctl_obs.append(self.render_obs(o["wire_from"], o["pub_from"]))
+        # the same iteration as a step of the system model (the ids/spec lines of workers started in it go first)
+        self.sys_lines += self._sys_pre + [f"ctl {'1' if self._crash_requeued else '0'}"]
+        self.sys_obs += ["ok"] * len(self._sys_pre) + [self.ctl_obs[-1]]
+        self._sys_pre = []
 
     def render_obs(self, wire_from: int, pub_from: int) -> str:
         import t1_sched
